@@ -141,7 +141,16 @@ func (p *Peer) readLoop() {
 	fr.SetMaxReadFrameSize(1<<24 - 1)
 	for {
 		xf, err := fr.ReadFrame()
+		if se, ok := err.(xh2.StreamError); ok {
+			// x/net refuses the frame (for instance a WINDOW_UPDATE with increment 0) but has consumed it: note it
+			// and keep reading, so that one bad frame does not silence everything that follows
+			noteRejected(fmt.Sprintf("frame on stream %d rejected by the independent reader: %v", se.StreamID, se))
+			continue
+		}
 		if err != nil {
+			if ce, ok := err.(xh2.ConnectionError); ok {
+				noteRejected(fmt.Sprintf("frame rejected by the independent reader as a connection error: %v (%s)", ce, fr.ErrorDetail()))
+			}
 			p.mu.Lock()
 			p.readErr, p.readDone = err, true
 			p.mu.Unlock()
@@ -435,4 +444,26 @@ func GoAway(last, code uint32, debug string) []byte {
 }
 func Priority(stream, dep uint32, excl bool, weight byte) []byte {
 	return wire.Frame(nil, wire.TPriority, 0, stream, wire.PriorityFields(dep, excl, weight), -1)
+}
+
+var (
+	rejectedMu sync.Mutex
+	rejected   []string
+)
+
+func noteRejected(s string) {
+	rejectedMu.Lock()
+	if len(rejected) < 100 {
+		rejected = append(rejected, s)
+	}
+	rejectedMu.Unlock()
+}
+
+// TakeRejected returns, and forgets, the frames that scripted peers' independent reader (x/net) refused since the last call.
+func TakeRejected() []string {
+	rejectedMu.Lock()
+	defer rejectedMu.Unlock()
+	out := rejected
+	rejected = nil
+	return out
 }
